@@ -735,12 +735,22 @@ where
                 res = recv_fut, if !do_write => {
                     match res {
                         Some(req) => {
-                            if req.sender.is_stream() {
-                                self.config.response_timeout =
-                                    self.config.streaming_response_timeout;
+                            let timeout = if req.sender.is_stream() {
+                                self.config.streaming_response_timeout
                             } else {
-                                self.config.response_timeout =
-                                    self.config.single_response_timeout;
+                                self.config.single_response_timeout
+                            };
+                            // There is one response timeout for the
+                            // connection. While other requests are
+                            // pending, a new request must not make it
+                            // longer than what those requests asked for.
+                            if query_vec.is_empty() {
+                                self.config.response_timeout = timeout;
+                            } else {
+                                self.config.response_timeout = cmp::min(
+                                    self.config.response_timeout,
+                                    timeout,
+                                );
                             }
                             Self::insert_req(
                                 req, &mut status, &mut reqmsg, &mut query_vec
